@@ -512,6 +512,10 @@ long long c_voronoi(long long nrows, long long ncols,
     long long i, j, jmin, ierr, idxcell;
     double xy[2], dx, dy, dist, distmin;
 
+    /* At least one point is needed to receive the weights */
+    if(npoints < 1)
+        return GRID_ERROR + __LINE__;
+
     for(j=0; j<npoints; j++)
         weights[j] = 0;
 
